@@ -102,7 +102,7 @@ func cmdFn(repo, name, prop string, verbose bool) int {
 	rc := 0
 	for _, fnn := range cs.order {
 		ct := cs.fns[fnn]
-		if name != "" && ct.Short != name && ct.Fn != name && !strings.HasSuffix(ct.Fn, name) {
+		if name != "" && ct.Short != name && ct.Fn != name && !strings.HasSuffix(ct.Fn, name) && !strings.HasSuffix(ct.Short, "."+name) {
 			continue
 		}
 		r := e.verifyFunction(ct, prop, "quick")
